@@ -216,6 +216,15 @@ def _init_worker(repo_src: str):
         async def stop_cyclic_tester_present(self):
             mark("tpStop")
             logging.getLogger("gallia").info("marker tpStop")
+            if Env.case.get("f_tpStop") == "cancel" and Env.case.get("how", {}).get("tpStop") == "on-entry":
+                # Ctrl-C arrives while teardown is in the synchronous stretch before it awaits the tester-present task:
+                # the cancellation is delivered at that await
+                if Env.case.get("how", {}).get("cancel", "sigint") == "sigint":
+                    signal.raise_signal(signal.SIGINT)
+                else:
+                    asyncio.current_task().cancel()
+                await super().stop_cyclic_tester_present()
+                return
             await super().stop_cyclic_tester_present()
             await fire("tpStop")
 
